@@ -170,10 +170,35 @@ def check_format_base(repo):
 
 # ------------------------------------------------------------------------------------------------ _twos_complement
 class _MaxList(ast.NodeTransformer):
+    """max([a, b]) -> max(a, b); the digits of a non-negative integer in base 2 / 8 / 16 written with a format specification
+    (``f"{n:b}"``, ``format(n, "o")``, ``f"{n:X}"``) -> the spelling with bin / oct / hex and the prefix cut off (inside
+    _twos_complement every number printed this way is a magnitude or a magnitude's complement plus one)"""
+
+    _SPEC = {"b": ("bin", False), "o": ("oct", False), "x": ("hex", False), "X": ("hex", True)}
+
+    def _digits(self, value, spec):
+        fn, upper = self._SPEC[spec]
+        e = ast.Subscript(value=ast.Call(func=ast.Name(id=fn, ctx=ast.Load()), args=[value], keywords=[]),
+                          slice=ast.Slice(lower=ast.Constant(2), upper=None, step=None), ctx=ast.Load())
+        if upper:
+            e = ast.Call(func=ast.Attribute(value=e, attr="upper", ctx=ast.Load()), args=[], keywords=[])
+        return e
+
     def visit_Call(self, node):
         self.generic_visit(node)
         if isinstance(node.func, ast.Name) and node.func.id in ("max", "min") and len(node.args) == 1 and isinstance(node.args[0], (ast.List, ast.Tuple)) and not node.keywords:
             return ast.Call(func=node.func, args=list(node.args[0].elts), keywords=[])
+        if isinstance(node.func, ast.Name) and node.func.id == "format" and len(node.args) == 2 and not node.keywords and isinstance(node.args[1], ast.Constant) \
+                and node.args[1].value in self._SPEC:
+            return self._digits(node.args[0], node.args[1].value)
+        return node
+
+    def visit_JoinedStr(self, node):
+        self.generic_visit(node)
+        if len(node.values) == 1 and isinstance(node.values[0], ast.FormattedValue) and node.values[0].conversion == -1:
+            fs = node.values[0].format_spec
+            if isinstance(fs, ast.JoinedStr) and len(fs.values) == 1 and isinstance(fs.values[0], ast.Constant) and fs.values[0].value in self._SPEC:
+                return self._digits(node.values[0].value, fs.values[0].value)
         return node
 
 
